@@ -906,16 +906,17 @@ get_local_name(CPPScope *scope) const {
   }
   */
 
+  // (The template arguments are named from the same scope as the rest.)
   if (scope != nullptr && _parent_scope != nullptr/* && _parent_scope != scope*/) {
     string parent_scope_name = _parent_scope->get_local_name(scope);
     if (parent_scope_name.empty()) {
-      return _name.get_name_with_templ();
+      return _name.get_name_with_templ(scope);
     } else {
       return parent_scope_name + "::" +
-        _name.get_name_with_templ();
+        _name.get_name_with_templ(scope);
     }
   } else {
-    return _name.get_name_with_templ();
+    return _name.get_name_with_templ(scope);
   }
 }
 
